@@ -1,5 +1,4 @@
 use std::collections::HashSet;
-use std::u32;
 
 use solang_parser::pt::{Expression, Loc};
 use solang_parser::{self, pt::SourceUnit};
@@ -43,28 +42,60 @@ fn check_if_inputs_are_power_of_two(
     let mut is_even: bool = false;
 
     //if the first expression is a number literal that is a power of 2
-    if let Expression::NumberLiteral(_, val_string, _) = *box_expression {
-        let value = val_string
-            .parse::<u32>()
-            .expect("Could not parse NumberLiteral value from string to u32");
-
-        if (value != 0) && ((value & (value - 1)) == 0) {
+    if let Expression::NumberLiteral(_, val_string, exponent_string) = *box_expression {
+        if is_power_of_two_literal(&val_string, &exponent_string) {
             is_even = true;
         }
     }
 
-    //if the first expression is a number literal that is a power of 2
-    if let Expression::NumberLiteral(_, val_string, _) = *box_expression_1 {
-        let value = val_string
-            .parse::<u32>()
-            .expect("Could not parse NumberLiteral value from string to u32");
-
-        if (value != 0) && ((value & (value - 1)) == 0) {
+    //if the second expression is a number literal that is a power of 2
+    if let Expression::NumberLiteral(_, val_string, exponent_string) = *box_expression_1 {
+        if is_power_of_two_literal(&val_string, &exponent_string) {
             is_even = true;
         }
     }
 
     is_even
+}
+
+//Check if a decimal literal of any size is a power of two, literals with an exponent are not considered
+fn is_power_of_two_literal(val_string: &str, exponent_string: &str) -> bool {
+    if !exponent_string.is_empty() || val_string.is_empty() {
+        return false;
+    }
+
+    if !val_string.bytes().all(|b| b.is_ascii_digit()) {
+        return false;
+    }
+
+    let mut digits: Vec<u8> = val_string
+        .bytes()
+        .map(|b| b - b'0')
+        .skip_while(|d| *d == 0)
+        .collect();
+
+    //zero is not a power of two
+    if digits.is_empty() {
+        return false;
+    }
+
+    //halve the number until it is odd, a power of two ends at one
+    while digits[digits.len() - 1] % 2 == 0 {
+        let mut carry = 0;
+        let mut halved: Vec<u8> = vec![];
+
+        for digit in digits {
+            let current = carry * 10 + digit;
+            if !(halved.is_empty() && current / 2 == 0) {
+                halved.push(current / 2);
+            }
+            carry = current % 2;
+        }
+
+        digits = halved;
+    }
+
+    digits == vec![1]
 }
 
 #[test]
